@@ -2,8 +2,11 @@
 # usage: tools/seed_sweep.sh "<seeds>" [tier] ; runs every registered check for each seed, reports non-quiet runs
 cd /verif
 TIER=${2:-quick}
+# run against an identical scratch copy so that the committed evidence files (seed 0) are not rewritten
+D=$(/verif/tools/scratch.sh sweep_$$)
 for sd in $1; do
 for p in $(python3 -c "import json;print(' '.join(c['property_id'] for c in json.load(open('MANIFEST.json'))['checks']))"); do
-  VERIF_SEED=$sd ./check $p --tier $TIER > /tmp/sweep_${p}_$sd.log 2>&1; rc=$?
+  VERIF_PROCS=${VERIF_PROCS:-8} VERIF_REPO=$D VERIF_SEED=$sd ./check $p --tier $TIER > /tmp/sweep_${p}_$sd.log 2>&1; rc=$?
   if [ $rc -ne 0 ]; then echo "seed=$sd $p rc=$rc"; grep -E "violated ob|CHECKER|VACUITY" /tmp/sweep_${p}_$sd.log | cut -c1-300 | sort | uniq -c | sort -rn | head -5; else rm -f /tmp/sweep_${p}_$sd.log; fi
 done; echo "seed $sd done"; done
+rm -rf $D
